@@ -759,3 +759,15 @@ CASES.append({'name': 'ben36r3-projection-returned-unchecked', 'props': ['C11'],
 case('benign-c17-rewire-only-with-neighbours', ['C17', 'C15', 'C06', 'C03'], [],
      (RRTS, "            // 8. Rewire tree\n            for &neighbour_idx in &neighbours {", "            // 8. Rewire tree\n            if !neighbours.is_empty() {\n            for &neighbour_idx in &neighbours {"),
      (RRTS, "                    mutable_neighbour_node.cost = cost_via_new_node;\n                }\n            }\n", "                    mutable_neighbour_node.cost = cost_via_new_node;\n                }\n            }\n            }\n"))
+
+# ---------------------------------------------------------------- round 15
+seeded('seeded-RFC02-pruned-orphans-become-roots', ['C02', 'C15'], ['C15.noremove'])
+seeded('seeded-RFC05-stale-back-link-index', ['C05', 'C18'], ['C18.sym'])
+seeded('seeded-RFC06-trees-written-back-swapped-on-timeout', ['C06', 'C15', 'C02'], ['C15.noremove'])
+seeded('seeded-RFC11-narrow-cone-product-sign-slip', ['C11', 'C14'], ['C11.same'])
+seeded('seeded-RFC12-rescale-once-by-a-constant', ['C12'], ['C12.unit'])
+seeded('seeded-RFC16-bernoulli-coin-built-in-setup', ['C16', 'C08'], ['C16.bias'])
+seeded('seeded-RFC17-costs-vector-not-cleared', ['C17', 'C15'], ['C17.cost'])
+seeded('seeded-RFC18-visited-flags-kept-after-timeout', ['C18', 'C07', 'C06'], ['C07.source'])
+seeded('seeded-RFC19-verdict-cache-keyed-on-address', ['C19', 'C20'], ['C20.validity'])
+seeded('seeded-RFC20-last-goal-sample-counts-as-satisfied', ['C20'], ['C20.goal'])
